@@ -68,6 +68,8 @@ def signature(g, form, clause, where='query'):
            'translation': 'nonzero' if has_t else 'zero'}
     if cc == 'raised':
         sig['where'] = where
+    if g['p0'] and G.is_zero(g['p0']):
+        sig['position'] = 'zero'          # detector reference point in the rotation centre
     return sig
 
 
